@@ -1,3 +1,159 @@
-From PV Require Import Comp.Constants Proofs.ConstantsProof.
-Theorem C12_placeholder : True. Proof. exact placeholder_ConstantsProof. Qed.
-Print Assumptions C12_placeholder.
+(* Props/C12.v — assembleConstants changes how constants load, not their values.
+   Property theorems only; proofs live in Proofs/ConstantsLitProof.v, ConstantsProof.v, ConstantsSim.v.
+   Model: Comp/Constants.v (createConstantBlocks, extract*Value), Comp/ConstantsLit.v (the Python
+   library calls); specification of "denotes" / "loads": Comp/ConstantsSpec.v over AVM/Parse.v and
+   AVM/Machine.v.  addr_hash / sig_hash (SHA-512/256) and the template instantiation sigma are
+   universally quantified. *)
+From Coq Require Import List NArith Ascii String Bool.
+From PV Require Import Base.Bytes Base.Sexp AVM.Syntax AVM.Machine AVM.Parse
+  Comp.ConstantsLit Comp.Constants Comp.ConstantsSpec
+  Proofs.ConstantsLitProof Proofs.ConstantsProof Proofs.ConstantsSim.
+Import ListNotations.
+Local Open Scope string_scope.
+
+(* [F, site-wise] For every component list (any length, any mix), every instantiation sigma of the
+   template placeholders and every hash oracle: if createConstantBlocks succeeds on an input whose
+   constant pseudo-ops all assemble (input_ok: each site denotes a value; no `addr TMPL_x`; method
+   signatures without backslashes), then the output is  block lines ++ body  where the block lines are
+   only intcblock/bytecblock, they assemble and establish blocks (ib, bb), the body has the input's
+   length, every non-constant component is unchanged at its position, and every constant site is
+   replaced by an op that assembles and — index resolved against (ib, bb), or push immediate — loads
+   exactly the value the pseudo-op denotes. *)
+Theorem C12_constants_sites_preserved :
+  forall (addr_hash : bytes -> bytes) (sig_hash : string -> bytes)
+         (sigma : string -> string) (msel : list (string * bytes)),
+    msel_consistent sig_hash msel ->
+    forall ops out,
+      create_constant_blocks addr_hash sig_hash ops = Some out ->
+      input_ok sigma msel ops ->
+      exists pro body ib bb,
+        out = (pro ++ body)%list /\
+        Forall (fun c => exists i, c = COp i /\ (i_op i = O_intcblock \/ i_op i = O_bytecblock)) pro /\
+        blocks_after sigma msel pro [] [] = Some (ib, bb) /\
+        Forall2 (site_ok sigma msel ib bb) ops body.
+Proof. exact constants_sites_preserved. Qed.
+Print Assumptions C12_constants_sites_preserved.
+
+(* [F, single-step simulation on the AVM] Same hypotheses: at every constant site, the original
+   instruction (in any program and machine state) and the rewritten instruction (in any program, in
+   any state whose intc/bytec blocks are the ones the emitted block lines establish) both [step] to
+   "pc + 1, the denoted value pushed, nothing else changed".  (Whole-run bisimulation — pc shift by the
+   block lines, label resolution — is not proved here; it is exercised by differential execution.) *)
+Theorem C12_constants_step_simulation :
+  forall addr_hash sig_hash sigma msel ops out,
+    msel_consistent sig_hash msel ->
+    create_constant_blocks addr_hash sig_hash ops = Some out ->
+    input_ok sigma msel ops ->
+    exists pro body ib bb,
+      out = (pro ++ body)%list /\
+      blocks_after sigma msel pro [] [] = Some (ib, bb) /\
+      Forall2 (site_sim sigma msel ib bb) ops body.
+Proof. exact constants_step_simulation. Qed.
+Print Assumptions C12_constants_step_simulation.
+
+(* what load_value means on the machine: it is what [step] pushes *)
+Theorem C12_load_value_is_step :
+  forall ib bb p v, load_value ib bb p = Some v -> imm_fits p ->
+  forall cx prog m,
+    nth_error (pr_code prog) (m_pc m) = Some p ->
+    m_intc m = ib -> m_bytec m = bb -> (height m <= STACK_MAX)%nat ->
+    step cx prog m = Running (with_pc_stack m (S (m_pc m)) (sval_value v :: m_stack m)).
+Proof. exact load_value_step. Qed.
+Print Assumptions C12_load_value_is_step.
+
+(* [F] extract_agrees_with_teal_grammar, byte literals: for EVERY spelling (so in particular every
+   spelling Bytes can emit: quoted with escapes, 0x hex, base32(..), base64(..)), if constants.py
+   extracts bytes b and the assembler reads v from the same token, then v = b. *)
+Theorem C12_extract_agrees_with_teal_grammar_bytes :
+  forall s b v rest,
+    extract_bytes [AStr s] = Some (KBytes b) ->
+    parse_bytes_arg (s :: rest) = Some (v, rest) ->
+    v = b.
+Proof. exact extract_bytes_agrees. Qed.
+Print Assumptions C12_extract_agrees_with_teal_grammar_bytes.
+
+(* ... integers: a named constant has the assembler's value, and the decimal spelling that replaces it
+   reads back as that value; any uint64 printed in decimal reads back as itself. *)
+Theorem C12_extract_agrees_with_teal_grammar_int :
+  (forall name n, is_tmpl_name name = false -> extract_int [AStr name] = Some (KInt n) ->
+     parse_int_arg name = Some n /\ parse_int_arg (N_to_dec n) = Some n) /\
+  (forall n, (n < 18446744073709551616)%N -> parse_int_arg (N_to_dec n) = Some n).
+Proof. split; [exact enum_value_kept|exact parse_int_arg_to_dec]. Qed.
+Print Assumptions C12_extract_agrees_with_teal_grammar_int.
+
+(* ... addresses (checksum is an oracle) and method selectors (for signatures without backslashes) *)
+Theorem C12_extract_agrees_with_teal_grammar_addr_method :
+  (forall addr_hash s key d,
+     decode_address addr_hash (list_ascii_of_string s) = Some key ->
+     Nat.eqb (String.length s) 58 = true -> decode_base32 s = Some d -> firstn 32 d = key) /\
+  (forall sig_hash s b sg,
+     extract_method sig_hash [AStr s] = Some (KBytes b) ->
+     existsb (fun c => Ascii.eqb c "\"%char) (list_ascii_of_string s) = false ->
+     parse_string_literal s = Some sg ->
+     b = firstn 4 (sig_hash (string_of_bytes sg))).
+Proof. split; [exact decode_address_agrees|exact method_sig_agrees]. Qed.
+Print Assumptions C12_extract_agrees_with_teal_grammar_addr_method.
+
+(* [F] the spelling createConstantBlocks emits for a byte value reads back as that value *)
+Theorem C12_emitted_hex_reads_back :
+  forall b rest, parse_bytes_arg (("0x" ++ bytes_to_hex b) :: rest) = Some (b, rest).
+Proof. exact parse_bytes_arg_hex_spelling. Qed.
+Print Assumptions C12_emitted_hex_reads_back.
+
+(* [F] ... and that spelling (what Bytes(b"..") emits) is read by constants.py itself as the same value *)
+Theorem C12_hex_spelling_read_by_both :
+  forall b rest,
+    extract_bytes [AStr ("0x" ++ bytes_to_hex b)] = Some (KBytes b) /\
+    parse_bytes_arg (("0x" ++ bytes_to_hex b) :: rest) = Some (b, rest).
+Proof. exact hex_spelling_read_by_both. Qed.
+Print Assumptions C12_hex_spelling_read_by_both.
+
+(* [R] constant_index_encodable is FALSE: there is a well-formed input (257 distinct integers, each used
+   twice) for which the output contains `intc k` with k > 255. *)
+Theorem C12_constant_index_encodable_refuted :
+  exists ops out,
+    create_constant_blocks no_hash no_sig ops = Some out /\
+    input_ok id_sigma [] ops /\
+    exists i k, In (COp i) out /\ i_op i = O_intc /\ long_index i = Some k /\ (255 < k)%N.
+Proof. exact constant_index_encodable_refuted. Qed.
+Print Assumptions C12_constant_index_encodable_refuted.
+
+(* [F] the positive part: a long-form index is always below the size of the emitted block, so indices
+   are encodable whenever the blocks have at most 256 entries. *)
+Theorem C12_constant_index_below_block_size :
+  forall addr_hash sig_hash sigma msel ops out,
+    msel_consistent sig_hash msel ->
+    create_constant_blocks addr_hash sig_hash ops = Some out ->
+    input_ok sigma msel ops ->
+    exists pro body ib bb,
+      out = (pro ++ body)%list /\ blocks_after sigma msel pro [] [] = Some (ib, bb) /\
+      Forall2 (fun c c' =>
+        match c with
+        | COp i => is_const_instr i = true ->
+            forall i' p' k, c' = COp i' -> parsed_of sigma msel i' = Some p' -> p_imms p' = [IInt k] ->
+              (p_op p' = O_intc -> (N.to_nat k < List.length ib)%nat) /\
+              (p_op p' = O_bytec -> (N.to_nat k < List.length bb)%nat)
+        | _ => True
+        end) ops body.
+Proof. exact constant_index_below_block_size. Qed.
+Print Assumptions C12_constant_index_below_block_size.
+
+(* [R] an `addr TMPL_x` site does not keep its meaning: instantiated with an address, the pseudo-op form
+   denotes the public key, the rewritten site (pushbytes TMPL_x) does not assemble. *)
+Theorem C12_addr_template_context_refuted :
+  exists sigma ops out i i' v,
+    create_constant_blocks no_hash no_sig ops = Some out /\
+    ops = [COp i] /\ out = [COp i'] /\
+    denote sigma [] i = Some v /\
+    parsed_of sigma [] i' = None.
+Proof. exact addr_template_context_refuted. Qed.
+Print Assumptions C12_addr_template_context_refuted.
+
+(* [F] int / byte templates keep their spelling (and, by the main theorem for every sigma, their value);
+   named enum constants keep their value. *)
+Theorem C12_template_spelling_kept :
+  forall s, is_tmpl_name s = true ->
+    extract_int [AStr s] = Some (KTmpl s) /\ int_key_arg (KTmpl s) = AStr s /\
+    extract_bytes [AStr s] = Some (KTmpl s) /\ bytes_key_arg (KTmpl s) = AStr s.
+Proof. exact template_spelling_kept. Qed.
+Print Assumptions C12_template_spelling_kept.
